@@ -45,6 +45,7 @@ private:
     using Arnoldi<Scalar, ArnoldiOpType>::m_fac_H;
     using Arnoldi<Scalar, ArnoldiOpType>::m_fac_f;
     using Arnoldi<Scalar, ArnoldiOpType>::m_beta;
+    using Arnoldi<Scalar, ArnoldiOpType>::m_scale;
     using Arnoldi<Scalar, ArnoldiOpType>::m_near_0;
     using Arnoldi<Scalar, ArnoldiOpType>::m_eps;
 
@@ -128,6 +129,7 @@ public:
             // w <- A * v
             m_op.perform_op(v.data(), w.data());
             op_counter++;
+            m_scale = (std::max)(m_scale, m_op.norm(w));
 
             // f <- w - V * (V^H)Bw = w - H[i+1, i] * V{i} - H[i+1, i+1] * V{i+1}
             // If restarting, we know that H[i+1, i] = 0
@@ -158,9 +160,9 @@ public:
                 // likely to fail. In particular, if beta=0, then the test is ensured to fail.
                 // Hence when this happens, we force f to be zero, and then restart in the
                 // next iteration.
-                // "Close to zero" is measured against the magnitude of the projected matrix H
-                // (i.e. of A on the current subspace), not against 1
-                if (m_beta < beta_thresh * m_fac_H.topLeftCorner(i1, i1).cwiseAbs().maxCoeff())
+                // "Close to zero" is measured against the magnitude of A (estimated by the
+                // largest ||A * v|| seen so far), not against 1
+                if (m_beta < beta_thresh * m_scale)
                 {
                     m_fac_f.setZero();
                     m_beta = RealScalar(0);
